@@ -219,6 +219,7 @@ type Oracle struct {
 
 func StartOracle(path string) (*Oracle, error) {
 	cmd := exec.Command(path)
+	cmd.Env = append(os.Environ(), "OCAMLRUNPARAM=s=32M,o=300")
 	stdin, err := cmd.StdinPipe()
 	if err != nil {
 		return nil, err
